@@ -546,6 +546,28 @@ def r1_5(ctx, R):
                     det = "MARK(i) for i in 0..%s, same expr as waker-list capacity" % expr_str(cap)
         ctx.ob("R1.5", b, "from_iter-marks-all", ok, d_loc(b), det)
     ctx.floor("R1.5", "from_iter-constructors", m, 1)
+    # every other way of building a bounded collection starts from an EMPTY slot map (nothing to mark): a constructor that
+    # adopts an existing / copied slot map (Clone, From, ...) leaves its occupied slots without a queue entry
+    sm = R.slot_enum[1]
+    from lib_inter import returned_exprs
+    for b in ctx.facts.fn_bodies():
+        for rb, e in returned_exprs(ctx, b):
+            if not (e[0] == "agg" and len(e) > 3 and len(e[2]) >= 2):
+                continue
+            adt = ctx.facts.adts.get(e[1].rsplit("::", 1)[0])
+            if not adt or adt["kind"] != "struct":
+                continue
+            fields = {f["name"]: f["ty"] for f in adt["variants"][0]["fields"]}
+            smf = [k for k, v in fields.items() if v.startswith(sm + "<")]
+            wlf = [k for k, v in fields.items() if wl_new is not None and v == wl_new.locals[0]]
+            if not (smf and wlf):
+                continue
+            ops = dict(zip(e[3], e[2]))
+            t_ = ops.get(smf[0])
+            empty = t_ is not None and t_[0] == "call" and (t_[1] or "").startswith(sm + "::") and (t_[1] or "").endswith("::new")
+            from_it = t_ is not None and t_[0] == "call" and "FromIterator" in (t_[1] or "") and (t_[1] or "").startswith("<" + sm)
+            ctx.ob("R1.5", b, "collection-built-from-empty-or-collected-slot-map", empty or from_it, b.loc(rb),
+                   "slot map operand: %s" % (expr_str(t_) if t_ else None))
 
 
 def _wakerlist_ctor(ctx, R):
